@@ -280,7 +280,11 @@ def run(repo: Repo, rep: Report, tier: str) -> None:
     ci = canon(inl)
     n9 = 0
     for tbl in ("signal_refs", "entity_refs", "memory_refs", "memory_types"):
-        stores = [n for n in walk_local(inl.node) if isinstance(n, ast.Assign) and norm(n.targets[0]) == f"self.parent.{tbl}"]
+        body_loops9 = [n for n in walk_local(inl.node) if isinstance(n, ast.For) and ".body" in norm(n.iter)]
+        if not body_loops9:
+            raise AnalysisError("C15-R9: body loop of the inliner not found")
+        # restores are the stores after the body; a store ahead of the body sets the callee's view up (C15-R20) and is not a restore
+        stores = [n for n in walk_local(inl.node) if isinstance(n, ast.Assign) and norm(n.targets[0]) == f"self.parent.{tbl}" and n.lineno > (body_loops9[0].end_lineno or 0)]
         if not stores:
             n9 += 1
             rep.bad("C15-R9", f"lower_function_call_inline restores {tbl}", f"no store to self.parent.{tbl} after the body: declarations of the callee stay visible in the caller", inl.loc())
@@ -532,3 +536,24 @@ def run(repo: Repo, rep: Report, tier: str) -> None:
             rep.check(own or dom, "C15-R19", f"lower_decl_stmt: symbol use #{n19} is the statement's own symbol", "identity with the declaring statement is established first" if (own or dom) else
                       f"`{x}.value_type` of a symbol found by name only: inside a function or loop body the global table holds the caller's variable of that name", lds.loc(use))
     rep.floor("C15-R19", "uses of a looked-up symbol's type in lower_decl_stmt", n19, 2)
+
+    # ---------------- R20 --------------------------------------------------------------
+    rep.rule("C15-R20", "free names of a callee are the program's, not the calling function's: the body is lowered with the name maps in force where the outermost call was made "
+             "(plus its own parameters) — before the body loop each scoped map is re-seated from something other than the map the caller is using; a body lowered in the "
+             "caller's live maps sees the caller's locals, and `func addk(x) { return x + k; }` called from a function with a local `k` adds that local")
+    inl20 = repo.func("ExpressionLowerer.lower_function_call_inline")
+    c20 = canon(inl20)
+    loops20 = [n for n in walk_local(inl20.node) if isinstance(n, ast.For) and ".body" in norm(n.iter)]
+    if not loops20:
+        raise AnalysisError("C15-R20: body loop of the inliner not found")
+    loop20 = loops20[0]
+    g20 = CFG(inl20.node)
+    for m20 in ("signal_refs", "entity_refs", "memory_refs", "memory_types"):
+        reseats = []
+        for st in walk_local(inl20.node):
+            if isinstance(st, ast.Assign) and norm(st.targets[0]) == f"self.parent.{m20}" and st.lineno < loop20.lineno:
+                alts = c20.alts(st.value, st)
+                if all(f"self.parent.{m20}" not in a for a in alts):
+                    reseats.append(st)
+        rep.check(bool(reseats), "C15-R20", f"inliner: {m20} is re-seated for a nested call before the body is lowered", f"{len(reseats)} re-seating store(s) ahead of the body loop" if reseats else
+                  f"the body is lowered in the caller's live `{m20}`: the callee resolves free names to the locals of whichever function called it", inl20.loc(loop20))
